@@ -345,6 +345,8 @@ async def process_resource_causes(
             settings=settings,
             memory=memory,
             cause=changing_cause,
+            # The deletion goes on (with re-checks) for as long as the daemons/timers are exiting.
+            held=deletion_is_ongoing and bool(spawning_delays),
         )
 
     # Release the object if everything is done, and it is marked for deletion.
@@ -474,9 +476,14 @@ async def process_changing_cause(
         settings: configuration.OperatorSettings,
         memory: inventory.ResourceMemory,
         cause: causes.ChangingCause,
+        held: bool = False,
 ) -> Collection[float]:
     """
     Handle a detected cause as part of the broader handler routine.
+
+    If the object is ``held`` for other reasons after its handlers are done
+    (i.e. at deletion: by the daemons that are still exiting), the progress
+    is kept, so that the finished handlers are not re-invoked on re-checks.
     """
     logger = cause.logger
     patch = cause.patch  # TODO get rid of this alias
@@ -533,11 +540,12 @@ async def process_changing_cause(
             state.store(body=cause.body, patch=cause.patch, storage=storage)
             progression.deliver_results(outcomes=outcomes, patch=cause.patch)
 
-            if state.done:
+            if state.done and (outcomes or not held):
                 counters = state.counts  # calculate only once
                 logger.info(f"{title.capitalize()} is processed: "
                             f"{counters.success} succeeded; "
                             f"{counters.failure} failed.")
+            if state.done and not held:
                 state.purge(body=cause.body, patch=cause.patch,
                             storage=storage, handlers=owned_handlers)
 
